@@ -30,6 +30,9 @@ def c20(tier):
         ScnStops("life", menu="MenuLife", start="StartLife", tx="TxLin", pol="PolQueue", max_inv=n, max_t=8),
         ScnStops("panic_pe", menu="MenuPanic", start="StartPanic", tx="TxLin", pol="PolQueue", stack="Stack012", max_inv=n - 1, max_t=8),
         ScnStops("transit", topo="T2", menu="MenuTrans", start="StartTrans", tx="TxLin", pol="PolQueue", max_inv=n, max_t=8),
+        # bursts: the run ends (or is cut short) with a backlog on the channel behind / in front of the transit gate
+        ScnStops("transit_backlog", topo="T2", menu="MenuTBurst", start="StartTBurst", tx="TxLin", pol="PolQueue", max_inv=n - 1, max_t=5),
+        ScnStops("transit_backlog3", topo="T3", menu="MenuTBurst", start="StartTBurst", tx="TxLin", pol="PolQueue", max_inv=n - 1, max_t=5),
     ]
     for s in fam:
         c_net.run_scn(v, wd, "C20", s, mc=False)
@@ -37,7 +40,7 @@ def c20(tier):
     c_async.family(v, wd, "C20", "chan", 2, "ProgsChan", 14, mc=False, what="tasks blocked on receives / timeouts when the run ends")
     c_async.family(v, wd, "C20", "life", 2, "ProgsLife", 16, mc=False, what="tasks cancelled by a restart")
     v.cov["rule"] = ("TLC: reference-graph model over 5 stopping points, all drop orders. Harness: every scenario of the backlog / lifecycle / "
-                     "panic+elements / transit families is run to its time limit and additionally stopped at 4 other points (never started; "
+                     "panic+elements / transit / transit-backlog families is run to its time limit and additionally stopped at 4 other points (never started; "
                      "event-count limit 2 and 5 with events pending and returned as remaining; started, 3 events dispatched, dropped without "
                      "finish), with a ring of gates wired in; after dropping everything the live counters of module structs, processing "
                      "elements, message bodies and task-captured values must be 0 and no value may be dropped twice; scenarios run back "
